@@ -144,24 +144,32 @@ theorem sigma_neg_left (a : Rat) {s : Rat} (h : s < 0) :
     -2 ≤ ((sign1 s + sign1 a : Int) : Rat) ∧ ((sign1 s + sign1 a : Int) : Rat) ≤ 0 := by
   rw [Int.add_comm]; exact sigma_neg_right a h
 
+/-! The limiter factors are the constants `Lp.C01.K.*`, read from src/Numerics.cpp before every build
+    (LpModel/C01/Constants.lean).  The lemmas below unfold them: they go through for
+    `1.0·|p|/2.0`, `1.0·|s_i|`, `1.0·|s_{i-1}|` (interior) and `1.0·|s|`, `0.5·|p|` (boundary) and stop
+    compiling when the source says otherwise. -/
+
 theorem interior_min_nonneg (p s sm : Rat) : 0 ≤ rmin (rabs p / 2) (rmin (rabs s) (rabs sm)) :=
   le_rmin (by have := rabs_nonneg p; linarith) (le_rmin (rabs_nonneg s) (rabs_nonneg sm))
 
 /-- interior slopes lie in the box of the right neighbour slope … -/
 theorem dyInterior_box_right (hm h sm s : Rat) : Box (dyInterior hm h sm s) s := by
   unfold dyInterior
+  simp only [K.limIntP, K.limIntPDiv, K.limIntS, K.limIntSm, one_mul]
   refine box_of (interior_min_nonneg _ _ _) ?_ (sigma_pos_right sm) (sigma_neg_right sm)
   exact le_trans (rmin_le_right _ _) (rmin_le_left _ _)
 
 /-- … and of the left neighbour slope -/
 theorem dyInterior_box_left (hm h sm s : Rat) : Box (dyInterior hm h sm s) sm := by
   unfold dyInterior
+  simp only [K.limIntP, K.limIntPDiv, K.limIntS, K.limIntSm, one_mul]
   refine box_of (interior_min_nonneg _ _ _) ?_ (sigma_pos_left s) (sigma_neg_left s)
   exact le_trans (rmin_le_right _ _) (rmin_le_right _ _)
 
 /-- boundary slopes lie in the box of the boundary interval's slope -/
 theorem dyEdge_box (h0 h1 s0 s1 : Rat) : Box (dyEdge h0 h1 s0 s1) s0 := by
   unfold dyEdge
+  simp only [K.limEdgeS, K.limEdgeP, one_mul]
   refine box_of (le_rmin (rabs_nonneg _) (by have := rabs_nonneg (pEdge h0 h1 s0 s1); linarith)) ?_
     (sigma_pos_right _) (sigma_neg_right _)
   exact rmin_le_left _ _
